@@ -379,6 +379,7 @@ class Spec:
                 vals['ampm'] = amv
                 vals['input_consumed'] = left
                 vals['dowcmp'] = st.notes.get('dowcmp', 0)
+                vals['dowcheck'] = st.notes.get('dowcheck')
                 interp.events.append(('assembly', key, tuple(tainted), st.notes.get('clock_reads', 0), vals, st))
                 st.notes['assembled'] = st.notes.get('assembled', ()) + ((tuple(tainted), tuple(sorted((k, v[1]) for k, v in vals.items() if isinstance(v, tuple)))),)
             body = self.facts.bodies[key]
@@ -418,6 +419,19 @@ class Spec:
             v, w = args[1], args[2]
             wl, wh = st.num.rng(w.form) if isinstance(w, VInt) else (None, None)
             st.notes['u32'] = st.notes.get('u32', ()) + ((v.form if isinstance(v, VInt) else None, wl if wl == wh else None),)
+        if key == '<date::Date as std::convert::TryFrom<&format::NaiveDateTime>>::try_from' and len(args) == 1 and st.stack \
+                and 'parse_internal' in st.stack[-1][1]:
+            # the date whose weekday the parser compares with a weekday field: remember the record fields at that point
+            v = args[0]
+            if isinstance(v, VRef):
+                try:
+                    v = interp.load(st, v.root, v.path)
+                except Exception:
+                    v = None
+            if isinstance(v, VAdt) and v.single() is not None:
+                idx = self.ndt_fields(v)
+                fs = v.variants[0]
+                st.notes['dowcheck'] = tuple(fs[idx[nm]].form if isinstance(fs[idx[nm]], VInt) else None for nm in ('year', 'month', 'day'))
         return None
 
     def dom_sym(self, yf: Form, mf: Form):
@@ -553,7 +567,8 @@ class Spec:
     ]
     PAIRS = [('YYYY', 'YYYY'), ('YYYY', 'YY'), ('MM', 'MM'), ('MM', 'MONTH'), ('MONTH', 'Mon'), ('DD', 'DD'), ('HH24', 'HH24'), ('HH24', 'HH12'),
              ('HH12', 'HH12'), ('MI', 'MI'), ('SS', 'SS'), ('FF', 'FF3'), ('AM', 'AM'), ('AM', 'a.m.'), ('HH24', 'AM'), ('AM', 'HH24'),
-             ('D', 'D'), ('D', 'DAY'), ('DAY', 'dy'), ('DDD', 'DDD'), ('YYYY', 'MM'), ('HH12', 'AM'), ('AM', 'HH12')]
+             ('D', 'D'), ('D', 'DAY'), ('DAY', 'dy'), ('DDD', 'DDD'), ('YYYY', 'MM'), ('HH12', 'AM'), ('AM', 'HH12'),
+             ('MM', 'DDD'), ('DDD', 'MONTH'), ('DD', 'DDD'), ('DDD', 'DD'), ('DDD', 'DAY'), ('D', 'DDD'), ('YYYY', 'DDD'), ('DD', 'DAY'), ('MM', 'DD')]
 
     def mk_field(self, interp, name, payload):
         fty = self.field_ty
